@@ -606,6 +606,6 @@ def run_c18(ctx):
                                    % ', '.join('%s x%d' % kv for kv in sorted(seen_raised.items())))
     # extra module: the non-statistical comparison tests and the metadata test (Equal.tla, observations only, see conf_equal.py)
     import conf_equal
-    conf_equal.run(ctx, tlc.workdir('c18equal'))
+    ctx.extra('Equal', conf_equal.run, tlc.workdir('c18equal'))
 
 
